@@ -248,3 +248,9 @@ Definition ystep (st : ybuf) (o : xop) : ybuf * nat :=
    view of the buffer *)
 Definition x_snap_batch_get (snap : list kv) (st : xbuf) (keys : list key) : list key * list kv :=
   buffer_batch_get snap (x_snap_map st) keys.
+Definition yrun (ops : list xop) (st : ybuf) : ybuf := fold_left (fun s o => fst (ystep s o)) ops st.
+
+(* legality of RevertToCheckpoint(n), decided by the model: between the top staging position and the end of the log
+   (the hypothesis `legal` of the Dirty / SnapshotSeqNo theorems; checked on every replayed program) *)
+Definition revert_legalb (b : mbuf) (n : nat) : bool :=
+  Nat.leb (hd O (b_stages b)) n && Nat.leb n (length (b_log b)).
